@@ -403,8 +403,10 @@ class LazyGenerators:
             return None
         gen = comp.generators[0]
         got = interp.eval(gen.iter, st, fr)
-        if not got or not all(r.kind == "exc" or (self.pullable(r.value) and not (isinstance(r.value, tuple) and r.value[:1] == ("seqiter",))) for r in got):
+        if not got or not all(r.kind == "exc" or self.pullable(r.value) or interp._exact_elements(r.value) is not None for r in got):
             return None
+        # (over a sequence known element by element the expression is lazy as well: nothing of it runs unless it is consumed)
+        got = [r if r.kind == "exc" or self.pullable(r.value) else x for r in got for x in ([r] if r.kind == "exc" or self.pullable(r.value) else self.iterator_of(interp, r.value, r.state, fr))]
         targets = {n.id for n in ast.walk(gen.target) if isinstance(n, ast.Name)}
         used = sorted({n.id for x in [comp.elt] + list(gen.ifs) for n in ast.walk(x) if isinstance(n, ast.Name)} - targets)
         out = []
